@@ -61,7 +61,7 @@ func c24Reset() *blockchain.ChainState {
 func c24Label(l int) types.AuthorizerHash {
 	var h types.AuthorizerHash
 	for i := range h {
-		h[i] = byte(0xA0 + l)
+		h[i] = 0xA5 // all labels share their first 31 bytes: a comparison that stops early confuses them
 	}
 	h[31] = byte(l)
 	return h
